@@ -28,6 +28,7 @@ class ConstEval:
         self.path = path
         self.strs = {}      # name -> str
         self.patterns = {}  # name -> pattern text of a re.compile(...) bound to that name
+        self.flags = {}     # name -> flags of that re.compile(...), e.g. "DOTALL" ("" = none)
 
     def ev(self, n):
         if isinstance(n, ast.Constant) and isinstance(n.value, str):
@@ -45,6 +46,17 @@ class ConstEval:
         raise Unsupported("{}: not a constant string expression".format(where(n, self.path)))
 
     @staticmethod
+    def re_flags(n, path):
+        """second argument of re.compile: re.A | re.B | ... -> "A|B" (sorted)"""
+        if isinstance(n, ast.BinOp) and isinstance(n.op, ast.BitOr):
+            return "|".join(sorted((ConstEval.re_flags(n.left, path) + "|"
+                                    + ConstEval.re_flags(n.right, path)).split("|")))
+        if isinstance(n, ast.Attribute) and isinstance(n.value, ast.Name) and n.value.id == "re":
+            return {"S": "DOTALL", "I": "IGNORECASE", "M": "MULTILINE", "X": "VERBOSE",
+                    "A": "ASCII", "U": "UNICODE"}.get(n.attr, n.attr)
+        raise Unsupported("{}: regular-expression flags not recognised".format(where(n, path)))
+
+    @staticmethod
     def is_re_call(n, fn):
         return (isinstance(n, ast.Call) and isinstance(n.func, ast.Attribute) and n.func.attr == fn
                 and isinstance(n.func.value, ast.Name) and n.func.value.id == "re")
@@ -56,7 +68,7 @@ def gen():
     tree = ast.parse(src(PATH))
     out = {"dot": "", "dotFrom": "", "dotTo": "", "token": "", "bracket": "", "unitexp": "",
            "operator": "", "validity": "", "bare": "", "definename": "", "base": "",
-           "prec": [], "ops": []}
+           "prec": [], "ops": [], "flags": []}
 
     # ---- DOT_STRING
     try:
@@ -82,9 +94,12 @@ def gen():
             if isinstance(st, ast.Assign) and len(st.targets) == 1 and isinstance(
                     st.targets[0], ast.Name):
                 name, val = st.targets[0].id, st.value
-                if ConstEval.is_re_call(val, "compile") and len(val.args) == 1:
+                if ConstEval.is_re_call(val, "compile") and len(val.args) in (1, 2) \
+                        and not val.keywords:
                     try:
+                        fl = ConstEval.re_flags(val.args[1], PATH) if len(val.args) == 2 else ""
                         ce.patterns[name] = ce.ev(val.args[0])
+                        ce.flags[name] = fl
                     except Unsupported as e:
                         broken.append(str(e))
                 else:
@@ -105,6 +120,7 @@ def gen():
             if py not in ce.patterns:
                 raise Unsupported("{}: {} is not re.compile(<constant string>)".format(PATH, py))
             out[key] = ce.patterns[py]
+            out["flags"].append((key, ce.flags.get(py, "")))
         if len(replaces) != 1:
             raise Unsupported("{}: expected one str.replace in {}, found {}".format(
                 PATH, TOKENISER, len(replaces)))
@@ -216,6 +232,8 @@ def unitExpPatternSrc : String := {unitexp}
 def operatorPatternSrc : String := {operator}
 def validityPatternSrc : String := {validity}
 def defineNamePatternSrc : String := {definename}
+/-- flags of the four `re.compile` calls of the tokeniser ("" = none) -/
+def patternFlags : List (String × String) := {flags}
 
 /-- `precedence` dict of the two-stack parser, in source order -/
 def precTable : List (String × Nat) := {prec}
@@ -232,5 +250,6 @@ end QExPy.Gen
            bracket=lean_str(out["bracket"]), unitexp=lean_str(out["unitexp"]),
            operator=lean_str(out["operator"]), validity=lean_str(out["validity"]),
            definename=lean_str(out["definename"]), prec=pairs(out["prec"], str),
-           base=lean_str(out["base"]), ops=pairs(out["ops"], lean_str))
+           base=lean_str(out["base"]), ops=pairs(out["ops"], lean_str),
+           flags=pairs(out["flags"], lean_str))
     return "Units.lean", text, broken
